@@ -20,7 +20,8 @@ func writeReplay(run *checkRun, o *Obligation, keep bool) string {
 	qpath := base + ".smt2"
 	os.WriteFile(qpath, []byte(q+"(get-model)\n"), 0o644)
 	fmt.Fprintf(&b, "query: %s\n", qpath)
-	if o.Result.Status == "sat" {
+	if o.Result.Status != "unsat" {
+		// also for unknown/timeout: another solver run may still produce a model
 		rep := tryReplay(run, o, base)
 		b.WriteString(rep)
 	}
